@@ -202,7 +202,9 @@ def run_cell(cfg, cx):
                 parts.append(b2.reshape(b.shape[:nl] + (c * D ** k,) + shape))
             exp = np.concatenate(parts, axis=n_lead - 1)
             cx.equal("scalar layout", sc, exp, key=f"scalar-layout:{ckey}",
-                     replay=lambda vals, bvals: (True, "to_scalar_multi_image layout differs from offset_t + c*D^k + i"))
+                     replay=lambda vals, bvals, exp=exp: cx.deviates(
+                         np.asarray(geom.MultiImage({q: jnp.asarray(cx.conc(blocks[q], vals)) for q, _ in sg}, D, flags).to_scalar_multi_image()[(0, 0)]),
+                         cx.expected(exp, vals), rtol=1e-6))
             cx.structural("scalar keys", meta["scalar_keys"] == [(0, 0)], f"{meta['scalar_keys']}")
             cx.canary("canary[scalar layout reversed]", sc, exp[(slice(None),) * (n_lead - 1) + (slice(None, None, -1),)]) if exp.shape[n_lead - 1] > 1 else None
         if "images" in ex:
